@@ -208,6 +208,16 @@ class Resource(Entity):
             peak_waiters=self._peak_waiters,
         )
 
+    def _configured_capacity(self) -> int | float:
+        """The capacity the resource was built with.
+
+        A fault-injected capacity reduction is temporary: a request that fits the
+        configured capacity stays valid and simply waits until enough capacity is
+        back, so requests are validated against this value, not the reduced one.
+        """
+        state = getattr(self, "_capacity_faults", None)  # set by faults.ReduceCapacity
+        return state[0] if state is not None else self._capacity
+
     def acquire(self, amount: int | float = 1) -> SimFuture:
         """Acquire capacity, returning a SimFuture that resolves with a Grant.
 
@@ -228,10 +238,10 @@ class Resource(Entity):
         """
         if amount <= 0:
             raise ValueError(f"amount must be > 0, got {amount}")
-        if amount > self._capacity:
+        if amount > self._configured_capacity():
             raise ValueError(
                 f"cannot acquire {amount} from resource '{self.name}' "
-                f"with capacity {self._capacity}"
+                f"with capacity {self._configured_capacity()}"
             )
 
         future = SimFuture()
@@ -283,10 +293,10 @@ class Resource(Entity):
         """
         if amount <= 0:
             raise ValueError(f"amount must be > 0, got {amount}")
-        if amount > self._capacity:
+        if amount > self._configured_capacity():
             raise ValueError(
                 f"cannot acquire {amount} from resource '{self.name}' "
-                f"with capacity {self._capacity}"
+                f"with capacity {self._configured_capacity()}"
             )
 
         if self._available >= amount:
